@@ -83,6 +83,15 @@ class EChaos(Engine):
             if k == 'Array':
                 objs.append({'kind': 'Array', 'dtype': g.pick(['uint8', 'int5', 'float16', 'hex2', 'bin3', 'bool', '>H', 'bfloat', 'e4m3mxfp', 'bytes2', 'bits3', 'u1', 'floatle32', 'uintle16']),
                              'bits': g.bits(g.pick([0, 8, 16, 24, 33, 64]))})
+            elif k in ('ConstBitStream', 'BitStream') and g.chance(0.3):
+                # a wire of exp-Golomb codewords whose last codeword is cut short (by 1 .. all-but-one of its bits)
+                words = []
+                for _ in range(g.int(1, 4)):
+                    b_ = bin(g.pick([0, 1, 2, 3, 4, 5, 6, 7, 14, 30, 100]) + 1)[2:]
+                    words.append('0' * (len(b_) - 1) + b_)
+                last = words[-1]
+                cut = g.int(1, max(len(last) - 1, 1)) if len(last) > 1 else 0
+                objs.append({'kind': k, 'bits': ''.join(words[:-1]) + last[:len(last) - cut], 'pos': 0, 'golomb': len(words)})
             else:
                 objs.append({'kind': k, 'bits': g.bits(g.length(70)), 'pos': g.int(0, 8)})
         return {'avoid': bool(desc.get('avoid')), 'objs': objs, 'lsb0': g.chance(0.3), 'bytealigned': g.chance(0.15),
@@ -251,6 +260,11 @@ class EChaos(Engine):
         n = len(x) if kernel.is_bits(x) else len(x.data)
         alen = call(len, x)
         alen = alen[1] if alen[0] == 'ok' else 0
+        if kind == 'call' and hasattr(x, '_pos') and g.chance(0.08):
+            # several variable-length codes in one list read: the last may be truncated
+            k_ = g.int(1, 5)
+            code = g.pick(['ue', 'se', 'ue', 'uie', 'sie'])
+            return {'k': 'call', 'obj': i, 'member': g.pick(['readlist', 'readlist', 'peeklist', 'unpack']), 'args': [{'t': 'str', 'v': ', '.join([code] * k_)}], 'kwargs': {}}
         if kind == 'call' and hasattr(x, '_pos') and g.chance(0.12):
             return {'k': 'setprop', 'obj': i, 'name': 'pos', 'value': {'t': 'int', 'v': g.pick([n, n, n - 1, n - 7, n // 2])}}
         if kind == 'call':
